@@ -204,9 +204,12 @@ func (p *Parser) parseDeclarationList() GrammarType {
 	// IE hack: *color:red;
 	if c := p.l.r.Peek(0); p.tt == DelimToken && p.data[0] == '*' && c != ' ' && c != '\t' && c != '\n' && c != '\r' && c != '\f' && (c != '/' || p.l.r.Peek(1) != '*') {
 		// only when the name follows directly: "* b{}" is a nested ruleset with a descendant combinator
-		if tt, data := p.popToken(false); tt != ErrorToken {
-			p.tt = tt
-			p.data = append(p.data, data...)
+		if c >= 'a' && c <= 'z' || c >= 'A' && c <= 'Z' || c == '_' || c == '-' || c == '\\' || c >= 0x80 {
+			// and only a name: "*.b{}", "*[c]{}" and "*{}" are nested rulesets as well
+			if tt, data := p.popToken(false); tt != ErrorToken {
+				p.tt = tt
+				p.data = append(p.data, data...)
+			}
 		}
 	}
 
